@@ -4,7 +4,7 @@
 cd "$(dirname "$0")/.." || exit 2
 tier=${1:-quick}; mode=--check-only; [ "$2" = "--full" ] && mode=
 out=$(mktemp -d /tmp/vf_allseed_XXXX)
-ls seeded | grep -v results_ | while read d; do grep -q superseded_by_fix seeded/$d/meta.json 2>/dev/null || echo $d; done | xargs -P 4 -I{} sh -c "p=\$(grep -o '\"caught_by\": \"C[0-9]*' seeded/{}/meta.json | grep -o 'C[0-9]*\$'); [ -z \"\$p\" ] && p=\$(echo {} | cut -c1-3); VERIF_JOBS=4 /venv/bin/python tools/verify_seeded.py seeded/{} \$p $tier $mode > $out/{}.json 2>&1"
+ls seeded | grep -v results_ | while read d; do grep -q "superseded_by_fix\|outside_quantifier" seeded/$d/meta.json 2>/dev/null || echo $d; done | xargs -P 4 -I{} sh -c "p=\$(grep -o '\"caught_by\": \"C[0-9]*' seeded/{}/meta.json | grep -o 'C[0-9]*\$'); [ -z \"\$p\" ] && p=\$(echo {} | cut -c1-3); VERIF_JOBS=4 /venv/bin/python tools/verify_seeded.py seeded/{} \$p $tier $mode > $out/{}.json 2>&1"
 /venv/bin/python - "$out" "$tier" <<'PY'
 import json, os, sys
 out, tier = sys.argv[1], sys.argv[2]
